@@ -102,7 +102,7 @@ CLAIMED["C12"] = ("model_checking",
 CLAIMED["C16"] = ("model_checking",
     "TLA+ spec KadOps (property monitor) + KadOpsMC (implementation-shaped model of the Kademlia orchestration around the abstract query engine) checked by TLC; fault placements enumerated by TLC plus seeded random ones executed as networks of real litep2p nodes over loopback TCP / WebSocket / QUIC / mixed-transport networks through the public API; every recorded execution validated by TLC against the monitor",
     "TLC explores every interleaving of open_substream_or_dial outcomes, dial failure / establishment, substream open / failure, executor send / read results and disconnects for 3 target peers x one operation of every kind x quorums One/N(2)/All (and 2 concurrent operations on 2 peers); the per-(query,peer) ledger shows every failure path reports to the owning query. 83 (quick) / ~520 (thorough) real networks with undialable, refusing, address-less, non-Kademlia, killed (before / at connection / at receipt), silent, inbound-only peers and a local connection limit run 126 / ~850 monitored operations; each trace is checked for exactly one terminal event per query id within a 3x-slack deadline and success only with the quorum of confirmed receipts",
-    "real time: silent placements cost 15-35 s each (2 in quick, ~60 in thorough, concurrent); number of addressed peers observable only for put_record_to_peers (closest-peer puts demand >= 1 receipt); engine abstracted to the C15 guarantee; the on_connection_established open-substream error window is covered by the model only",
+    "real time: silent placements cost 15-35 s each (2 in quick, ~60 in thorough, concurrent); number of addressed peers observable only for put_record_to_peers (closest-peer puts demand >= 1 receipt); engine abstracted to the C15 guarantee; the on_connection_established open-substream error window is reached on real nodes through a 300-operation burst behind a gated dial (ChannelClogged), the check exits 2 when a transport never hits it",
     "DESIGN.md 4/C16, 10")
 
 CLAIMED["C07"] = ("model_checking",
